@@ -7,6 +7,9 @@ Verdict contract (DESIGN.md section 2):
   exit 2  anything else (tool crash, timeout, build error, vacuous run, noisy host)
 """
 import hashlib
+import itertools
+import threading
+from concurrent.futures import ThreadPoolExecutor
 import json
 import os
 import re
@@ -103,6 +106,7 @@ class Check:
         self.notes = []
         self._vh = {}
         self._meta = 0
+        self._lock = threading.Lock()
         self.tlc_states = 0
         self.tlc_transitions = 0
         self.tlc_runs = []
@@ -178,9 +182,11 @@ class Check:
     def tlc(self, family, module, cfg=None, workers=None, env=None, timeout=1800, simulate=None, depth=None,
             dfs=False, extra=None, heap="12g", count=True, coverage=False, stack=None, edges_out=None):
         """Run TLC on specs/<family>/<module>.tla with <cfg> (default <module>.cfg) in a scratch copy."""
-        d = self._specdir(family)
-        self._meta += 1
-        meta = self.path("meta%d" % self._meta)
+        with self._lock:
+            d = self._specdir(family)
+            self._meta += 1
+            mid = self._meta
+        meta = self.path("meta%d" % mid)
         jopts = ["-XX:+UseParallelGC", "-Xmx" + heap]
         if stack:
             jopts.append("-Xss" + stack)
@@ -204,7 +210,7 @@ class Check:
         if env:
             e.update({k: str(v) for k, v in env.items()})
         t = time.time()
-        rawp = self.path("tlcout%d.txt" % self._meta)
+        rawp = self.path("tlcout%d.txt" % mid)
         with open(rawp, "w") as rawf:
             pr = subprocess.run(cmd, cwd=d, env=e, stdout=rawf, stderr=subprocess.STDOUT, text=True)
         wall = time.time() - t
@@ -413,3 +419,69 @@ def replay_edges(c, adapter, edges_path, walks=200, wlen=50, clause="replay", ti
     if rep.get("applied", 0) == 0:
         raise Infra("replay applied no edge for " + adapter)
     return rep
+
+
+def validate_scenarios(c, family, module, trace_path, cfg=None, reset_op="reset", chunks=None, max_rej=4,
+                       timeout=1800, heap="4g"):
+    """Pattern T over many concatenated scenarios. The trace is cut into chunks at scenario boundaries
+    (lines with op == reset_op), chunks are validated in parallel; when a chunk is rejected the
+    offending scenario is recorded and removed and the rest of the chunk is validated again, so one
+    rejection does not hide the remainder of the trace.
+    Returns dict(lines=.., scenarios=.., runs=.., rejections=[dict(line=.., record=.., scenario=[lines])])."""
+    with open(trace_path) as f:
+        lines = f.readlines()
+    starts = [i for i, l in enumerate(lines) if ('"op":"%s"' % reset_op) in l]
+    if not starts or starts[0] != 0:
+        raise Infra("trace does not start with a %s line" % reset_op)
+    nsc = len(starts)
+    chunks = chunks or min(NCPU, max(1, len(lines) // 20000))
+    per = (nsc + chunks - 1) // chunks
+    bounds = starts + [len(lines)]
+    pieces = []
+    for k in range(0, nsc, per):
+        pieces.append((bounds[k], bounds[min(k + per, nsc)]))
+    result = dict(lines=len(lines), scenarios=nsc, runs=0, rejections=[], validated_lines=0)
+    lock = threading.Lock()
+
+    def work(idx, a, b):
+        seg = lines[a:b]
+        rej_here = 0
+        while seg:
+            tp = c.path("chunk-%s-%d-%d.ndjson" % (module, idx, rej_here))
+            with open(tp, "w") as f:
+                f.writelines(seg)
+            ok, rej, res = c.validate_trace(family, module, tp, cfg=cfg, timeout=timeout, heap=heap)
+            os.unlink(tp)
+            with lock:
+                result["runs"] += 1
+            if ok:
+                with lock:
+                    result["validated_lines"] += len(seg)
+                return
+            m = re.match(r'<<"REJECTED", (\d+), (.*)>>$', rej)
+            ln = int(m.group(1))
+            try:
+                recj = json.loads(json.loads(m.group(2)))
+            except ValueError:
+                recj = m.group(2)
+            # scenario containing line ln (1-based) of seg
+            st = [i for i, l in enumerate(seg) if ('"op":"%s"' % reset_op) in l]
+            s0 = max(i for i in st if i <= ln - 1)
+            later = [i for i in st if i > s0]
+            s1 = later[0] if later else len(seg)
+            with lock:
+                result["rejections"].append(dict(line=ln - s0, record=recj, scenario=[json.loads(x) for x in seg[s0:s1]]))
+                result["validated_lines"] += s0
+            rej_here += 1
+            if rej_here >= max_rej:
+                with lock:
+                    result.setdefault("unvalidated_lines", 0)
+                    result["unvalidated_lines"] += len(seg) - s1
+                return
+            seg = seg[s1:]
+
+    with ThreadPoolExecutor(max_workers=min(len(pieces), NCPU)) as ex:
+        futs = [ex.submit(work, i, a, b) for i, (a, b) in enumerate(pieces)]
+        for f in futs:
+            f.result()
+    return result
